@@ -81,7 +81,7 @@ UNITS += [
     GU("c10_gnat_envelopes", "h_envelopes", "NearestNeighborsGNAT::Node::updateRadius / updateRange", [dict(name="range_never_lowered", where="body:updateRange", rx=r"if \(minRange_\[i\] > dist\)\s*minRange_\[i\] = dist;", repl="")]),
     GU("c10_gnat_insertNeighborK", "h_insertK", "NearestNeighborsGNAT::Node::insertNeighborK", [dict(name="ties_replace", where="body:insertNeighborK", rx=r"dist < NBH_TOP_FIRST\(\)", repl="dist <= NBH_TOP_FIRST()")]),
     GU("c10_gnat_insertNeighborR", "h_insertR", "NearestNeighborsGNAT::Node::insertNeighborR", [dict(name="strict_radius", where="body:insertNeighborR", rx=r"dist <= r", repl="dist < r")]),
-    GU("c10_gnat_nearestR_pruning", "h_nearestR_prune", "NearestNeighborsGNAT::Node::nearestR (sibling pruning and radius test of one node)", level="bounded", bound="<= 8 children per node, integer distances below 2^40", unwind=10,
+    GU("c10_gnat_nearestR_pruning", "h_nearestR_prune", "NearestNeighborsGNAT::Node::nearestR (sibling pruning and radius test of one node)", level="bounded", bound="<= 4 children per node, integer distances below 2^40", unwind=6,
        can=[dict(name="prune_on_equality", where="body:nearestR_prune", rx=r"- dist > MAXR\[child\]", repl="- dist >= MAXR[child]"),
             dict(name="min_max_swapped", where="body:nearestR_prune", rx=r"\+ dist < MINR\[child\]", repl="+ dist < MAXR[child]")]),
 ]
